@@ -453,8 +453,9 @@ class DriverLubaRs232(DriverSerialBase):
                     f"LUBA RX DALI queue not empty! {qlen} items in queue!"
                 )
                 try:
-                    item = self._queue_rx_raw_dali.get_nowait()
-                    _LOG.critical(f"LUBA RX DALI queue discarding: {item}")
+                    while True:
+                        item = self._queue_rx_raw_dali.get_nowait()
+                        _LOG.critical(f"LUBA RX DALI queue discarding: {item}")
                 except asyncio.QueueEmpty:
                     pass
 
@@ -1288,8 +1289,9 @@ class DriverSCIRS232(DriverSerialBase):
                     f"SCI RS232 RX DALI queue not empty! {qlen} items in queue!"
                 )
                 try:
-                    item = self._queue_rx_raw_dali.get_nowait()
-                    _LOG.critical(f"SCI RS232 RX DALI queue discarding: {item}")
+                    while True:
+                        item = self._queue_rx_raw_dali.get_nowait()
+                        _LOG.critical(f"SCI RS232 RX DALI queue discarding: {item}")
                 except asyncio.QueueEmpty:
                     pass
 
@@ -1300,8 +1302,9 @@ class DriverSCIRS232(DriverSerialBase):
                     f"SCI RS232 RX info DALI queue not empty! {qlen} items in queue!"
                 )
                 try:
-                    item = self._queue_rx_raw_dali.get_nowait()
-                    _LOG.critical(f"SCI RS232 RX info DALI queue discarding: {item}")
+                    while True:
+                        item = self._queue_rx_info.get_nowait()
+                        _LOG.critical(f"SCI RS232 RX info DALI queue discarding: {item}")
                 except asyncio.QueueEmpty:
                     pass
 
